@@ -24,9 +24,14 @@ def key_columns(rng, tier):
                 return v
             keys = [num() for _ in range(ln)]
             order = sorted
-        shape = rng.choice(['asc', 'asc', 'unsorted', 'dups'])
+        shape = rng.choice(['asc', 'asc', 'unsorted', 'dups', 'desc', 'asc-strict', 'desc-strict'])
         if shape == 'asc':
             keys = order(keys)
+        elif shape == 'desc':
+            keys = order(keys)[::-1]
+        elif shape in ('asc-strict', 'desc-strict'):
+            # distinct keys in Python's own order (texts by code point): what the binary search modes of XMATCH are specified on
+            keys = sorted(set(keys), reverse=shape == 'desc-strict')
         elif shape == 'dups':
             keys = keys + [rng.choice(keys) for _ in range(rng.randint(1, 3))]
             if rng.random() < 0.5:
@@ -92,6 +97,17 @@ def run(tier, seed):
             for sm in (1, -1):
                 cases_x.append(('lk xmatch %s %s I0 I%d' % (core.enc(lv), core.enc(rows), sm), core.outcome(inst._xmatch, lv, rows, 0, sm),
                                 {'fn': 'XMATCH', 'lookup': repr(lv), 'keys': repr(keys), 'search_mode': sm}))
+            for sm in (2, -2):          # binary search: every match mode, on every column (the model follows the loop also where the column is not sorted)
+                for mm in (0, -1, 1):
+                    cases_x.append(('lk xmatch %s %s I%d I%d' % (core.enc(lv), core.enc(rows), mm, sm), core.outcome(inst._xmatch, lv, rows, mm, sm),
+                                    {'fn': 'XMATCH', 'lookup': repr(lv), 'keys': repr(keys), 'match_mode': mm, 'search_mode': sm}))
+                if keys == sorted(set(keys), reverse=sm == -2) if all(type(k) is str for k in keys) or all(type(k) in (int, float) for k in keys) else False:
+                    want = keys.index(lv) + 1 if lv in keys else '#N/A'
+                    got = core.outcome(inst._xmatch, lv, rows, 0, sm)
+                    chk.count('oracle:binary-search-exact')
+                    if got != core.enc(want):
+                        chk.violation({'why': 'XMATCH in a binary search mode on a strictly sorted column does not return the position of the equal key / #N/A',
+                                       'lookup': repr(lv), 'keys': repr(keys), 'search_mode': sm, 'impl': got, 'want': want, 'stream': 'binary-search-exact'})
             width = rng.randint(1, 4)
             table = [[k] + [('r%d' % i) + 'c%d' % c if c % 2 else i * 10 + c for c in range(1, width)] for i, k in enumerate(keys)]
             for rl in (False, True, 0, 1):
@@ -151,6 +167,11 @@ def end_to_end(chk, tier):
         values = {}
         for i in range(h):
             values[(0, i)], values[(1, i)], values[(2, i)] = keys[i], vals[i], third[i]
+        dtexts = ['pear', 'melon', 'kiwi', 'fig', 'cherry', 'banana', 'apple'][:h]          # descending, and ascending in column E
+        dtexts = dtexts + [] if len(dtexts) == h else dtexts
+        for i in range(h):
+            values[(3, i)], values[(4, i)] = dtexts[i], dtexts[::-1][i]
+        dpick = rng.randrange(h)
         k = rng.choice(keys)
         kk = int(k)
         above = int(max(keys)) + 5
@@ -180,6 +201,14 @@ def end_to_end(chk, tier):
             ('=INDEX(A1:C%d,%d,%d)' % (h, h + 1, 1), lambda: '#REF!'),
             ('=INDEX(B1:B%d,MATCH(%d,A1:A%d,0))' % (h, kk, h), lambda: vals[keys.index(k)]),
             ('=ADDRESS(%d,%d)' % (r, col_no), lambda: inst._address(r, col_no)),
+            ('=XMATCH(%d,A1:A%d,0,2)' % (kk, h), lambda: keys.index(k) + 1),               # binary search modes: ascending numbers, descending texts
+            ('=XMATCH(%d,A1:A%d,0,2)' % (above, h), lambda: '#N/A'),
+            ('=XMATCH(%s,A1:A%d,-1,2)' % (between, h), lambda: keys.index(k) + 1),
+            ('=XMATCH(%s,A1:A%d,1,2)' % (between, h), lambda: keys.index(k) + 2 if keys.index(k) + 1 < h else '#N/A'),
+            ('=XMATCH("%s",D1:D%d,0,-2)' % (dtexts[dpick], h), lambda: dpick + 1),
+            ('=XMATCH("grape",D1:D%d,0,-2)' % h, lambda: '#N/A'),
+            ('=INDEX(A1:A%d,XMATCH("%s",D1:D%d,0,-2))' % (h, dtexts[dpick], h), lambda: keys[dpick]),
+            ('=XMATCH("%s",E1:E%d,0,2)' % (dtexts[::-1][dpick], h), lambda: dpick + 1),
             ('=COLUMN(B%d)' % r, lambda: 2),
             ('=COLUMN(B1:B%d)' % h, lambda: 2),
         ]
@@ -223,10 +252,29 @@ def end_to_end(chk, tier):
                     chk.violation({'why': 'a lookup does not see table cells that were blank in the workbook and are supplied by overrides', 'formula': trows[5][c], 'impl': g3, 'want': w})
         except Exception as e:  # noqa
             chk.violation({'why': 'the lookup table workbook does not translate', 'impl': 'E' + core.exc_class(e)})
-        # COLUMN() of the formula's own cell: formulas sit in column index fcol (0-based) = 4 here
+        # an area declared with room to grow: it runs past the last used row of the sheet; the rows below the data are part of it (blank, and
+        # filled in later through overrides)
+        gforms = ['=INDEX(A1:B10,8,2)', '=MATCH(80,A1:A10,0)', '=VLOOKUP(80,A1:B10,2,FALSE)', '=INDEX(B1:B10,MATCH(80,A1:A10,0))', '=INDEX(A1:B10,11,1)', '=INDEX(A1:B10,10,2)',
+                  '=XMATCH(80,A1:A10,0,-1)', '=INDEX(A1:B10,5,2)']
+        grows = [[10, 'ten'] + gforms, [20, 'twenty'], [30, 'thirty'], [40, 'forty'], [50, 'fifty']]
+        try:
+            exg = realcode.executor_for(realcode.load_class(realcode.translate([('G', grows)])))
+            for phase, wants in (('as stored', ['B', core.enc('#N/A'), core.enc('#N/A'), None, core.enc('#REF!'), 'B', core.enc('#N/A'), core.enc('fifty')]),
+                                 ('rows below the data supplied', [core.enc('eighty'), 'I8', core.enc('eighty'), core.enc('eighty'), core.enc('#REF!'), 'B', 'I8', core.enc('fifty')])):
+                if phase != 'as stored':
+                    exg.set_cells([Cellc(0, 0, 7, 80), Cellc(0, 1, 7, 'eighty')])
+                for c, w in enumerate(wants):
+                    g4 = core.outcome(lambda: exg.get_cell(Cellc(0, c + 2, 0)).value)
+                    chk.count('e2e:area-past-used-rows')
+                    if w is not None and g4 != w:
+                        chk.violation({'why': 'an area that runs past the last used row of the sheet is not the area written in the formula (rows below the data are blank elements of it)',
+                                       'formula': gforms[c], 'phase': phase, 'impl': g4, 'want': w, 'stream': 'area-past-used-rows'})
+        except Exception as e:  # noqa
+            chk.violation({'why': 'the workbook with an area past the used rows does not translate', 'impl': 'E' + core.exc_class(e)})
+        # COLUMN() of the formula's own cell: formulas sit in column index fcol (0-based) = 6 here
         g = realcode.eval_formulas(['=COLUMN()'], values)[0]
-        if g != core.enc(5):
-            chk.violation({'why': 'COLUMN() is not the 1-based column of the formula cell', 'impl': g, 'want': 'I5'})
+        if g != core.enc(7):
+            chk.violation({'why': 'COLUMN() is not the 1-based column of the formula cell', 'impl': g, 'want': 'I7'})
     chk.sample({'formula': formulas[0], 'value': got[0]})
 
 
